@@ -285,7 +285,7 @@ def files_case(rec, hub, rng, tier, d, tmpdir, i):
         elif route == "csv":
             mfa = fd.MFASystem.from_csv(definition, dimension_files=dim_files, parameter_files=par_files)
         elif route == "xlsx-named-sheets":
-            if i % 3 == 1 and dim_sheets:
+            if (i // 3) % 2 == 0 and dim_sheets:
                 # a sheet name that the workbook does not have: refused, never replaced by another sheet
                 wrong = dict(dim_sheets)
                 wrong[sorted(wrong)[0]] = "no such sheet"
